@@ -48,6 +48,50 @@ def walk_info(d, name):
         depth += 1
 
 
+# ---- build histories (seed C17-6): one module object with an explicit namespace, mounted several times ----
+MOUNT_BINDS = ["docs", "www", "api", "site", "lib"]
+
+
+def flatten_hist(h):
+    """What the history must leave behind, computed with plain dict merges and NO Collection code:
+    -> (script of the root, script of the module's own namespace).  Every mount is a collection of its own
+    whose stored configuration is: the namespace's configuration AT THE MOMENT of the mount, then config=,
+    then the configure() calls made on that very mount -- nothing a sibling mount or the namespace got later."""
+    ns_cfg = copy.deepcopy(h["ns"].get("config", {}))
+    root_cfg = {}
+    mounts, cur = [], {}
+    for op in h["ops"]:
+        if op[0] == "mount":
+            _, bind, ad, cfg, dflt, _via = op
+            m = {"bind": bind, "ad": ad, "dflt": bool(dflt), "cfg": ns.py_merge(ns_cfg, cfg or {})}
+            mounts.append(m)
+            cur[bind] = m
+        elif op[0] == "ns":
+            ns_cfg = ns.py_merge(ns_cfg, op[1])
+        elif op[0] == "conf":
+            cur[op[1]]["cfg"] = ns.py_merge(cur[op[1]]["cfg"], op[2])
+        elif op[0] == "root":
+            root_cfg = ns.py_merge(root_cfg, op[1])
+    items = [{"coll": {"module": h["module"], "ad": m["ad"], "ns": dict(h["ns"], config=copy.deepcopy(m["cfg"]))},
+              "bind": m["bind"], "default": m["dflt"]} for m in mounts]
+    root = {"name": h.get("root_name"), "auto_dash": True, "config": copy.deepcopy(root_cfg), "items": items}
+    return root, dict(h["ns"], config=copy.deepcopy(ns_cfg))
+
+
+def script_of(case):
+    return flatten_hist(case["hist"])[0] if "hist" in case else case["script"]
+
+
+def hist_ok(h):
+    """the history is inside what flatten_hist can express: configure() only on existing mounts,
+    type-consistent configurations"""
+    try:
+        flatten_hist(h)
+    except (KeyError, ValueError):
+        return False
+    return any(op[0] == "mount" for op in h["ops"])
+
+
 class C17(Prop):
     id = "C17"
     corr_module = "Corr.C17Corr"
@@ -133,9 +177,68 @@ class C17(Prop):
                         c["config"] = merged
         walk(spec)
 
+    def _gen_hist(self, rng):
+        """a build history: one module object whose explicit namespace carries configuration, mounted 2-3
+        times into one root (add_collection(module) / add_collection(from_module(module, [config=]))), with
+        configure() calls on the namespace, on single mounts and on the root, and reads, in between"""
+        ids = ns.Ids()
+        while True:
+            nsp = ns.gen_coll(rng, rng.choice([1, 1, 2]), ids, name=rng.choice(["sphinxmod", "m", None]), clean=True)
+            if any("task" in it for it in nsp["items"]):
+                break
+
+        def cfg(p=0.45):
+            return gt.jsonable(ns.schema_config(rng, p_keep=p))
+        nsp["config"] = cfg(0.6)
+        binds = rng.sample(MOUNT_BINDS, rng.choice([2, 2, 3]))
+        ops, mounted, has_default = [], [], False
+        todo = list(binds)
+        if rng.random() < 0.1:
+            todo.append(binds[0])              # the same name mounted again: replaces the first mount
+        while todo or rng.random() < 0.75:
+            r = rng.random()
+            if todo and (not mounted or r < 0.4):
+                b = todo.pop(0)
+                via = rng.choice(["add", "add", "fm", "fm_cfg"])
+                dflt = (not has_default) and rng.random() < 0.15
+                has_default = has_default or dflt
+                ops.append(["mount", b, rng.choice([None, True, False]) if via != "add" else None,
+                            cfg() if via == "fm_cfg" else None, dflt, via])
+                mounted.append(b)
+            elif r < 0.7 and mounted:
+                ops.append(["conf", rng.choice(mounted), cfg()])
+            elif r < 0.85:
+                ops.append(["ns", cfg()])
+            elif r < 0.93:
+                ops.append(["root", cfg()])
+            else:
+                ops.append(["read"])
+            if len(ops) > 12:
+                break
+        return {"module": rng.choice(ns.MOD_NAMES), "attr": rng.choice(["ns", "ns", "namespace"]),
+                "root_name": rng.choice([None, "root"]), "ns": nsp, "ops": ops}
+
+    def _hist_cases(self, rng, h):
+        names, st = self._names(rng, flatten_hist(h)[0])
+        form = rng.choice(["str", "pair", "ctx"])
+        for c in self._split(None, names, st):
+            c = dict(c, hist=h, req_form=form)
+            del c["script"]
+            yield c
+
     def generate(self, rng, tier, n):
         out = 0
         while out < n:
+            if rng.random() < 0.2:
+                h = self._gen_hist(rng)
+                if not hist_ok(h):
+                    continue
+                for c in self._hist_cases(rng, h):
+                    yield c
+                    out += 1
+                    if out >= n:
+                        break
+                continue
             ids = ns.Ids()
             clean = rng.random() < 0.85
             spec = ns.gen_coll(rng, rng.choice([2, 2, 3, 3]), ids, name=rng.choice([None, "root"]),
@@ -177,6 +280,21 @@ class C17(Prop):
                     yield {"script": root, "names": names}
                     if dflt_sub:
                         yield {"script": root, "names": ["sub"]}
+        # build histories: module namespace (configured c0) mounted twice (second mount: add_collection(module),
+        # from_module(module) or from_module(module, config=c1)), then ONE later configure() somewhere
+        t1d = dict(t1, default=True)
+        for c0, c1, c2 in itertools.product(sel, [None] + sel[1:3], sel[1:]):
+            for late in (["conf", "docs", c2], ["conf", "www", c2], ["ns", c2], ["root", c2]):
+                for early_ns in (False, True):
+                    nsp = {"name": "m", "auto_dash": True, "config": c0,
+                           "items": [{"task": t1d, "bind": None, "aliases": [], "default": None}]}
+                    ops = [["mount", "docs", None, None, False, "add"]]
+                    if early_ns:
+                        ops.append(["ns", {"a": {"early": 5}}])
+                    ops += [["mount", "www", None, c1, False, "fm_cfg" if c1 is not None else "add"], ["read"], late]
+                    h = {"module": "mod", "attr": "ns", "root_name": None, "ns": nsp, "ops": ops}
+                    if hist_ok(h):
+                        yield {"hist": h, "names": ["docs.t", "docs.al", "docs", "www.t", "www"]}
 
     # ---- implementation ----------------------------------------------------
     def run_impl(self, case):
@@ -192,7 +310,11 @@ class C17(Prop):
                     c.configuration(nm)
                 except Exception:  # noqa
                     pass
-        coll, st = ns.build_and_dump(case["script"], b, before_finish=early_lookups)
+        if "hist" in case:
+            b = ns.Builder(sigs=_NoArgs(), on_call=b.on_call)
+            coll, st = self._run_hist(case, b)
+        else:
+            coll, st = ns.build_and_dump(case["script"], b, before_finish=early_lookups)
         obs = []
         if coll is not None:
             for nm in case["names"]:
@@ -205,6 +327,50 @@ class C17(Prop):
                 except Exception as e:  # noqa
                     obs.append({"err": type(e).__name__})
         return {"state": st, "obs": obs, "body": self._body_views(case, coll, b, obs) if coll is not None else []}
+
+    def _run_hist(self, case, b):
+        """replay a build history on real objects -> (root | None, {"ok": dump} | {"err": cls})"""
+        import types
+        from invoke import Collection
+        h = copy.deepcopy(case["hist"])
+        try:
+            mod = types.ModuleType(h["module"])
+            mod.__doc__ = "COLL"
+            b._in_module += 1
+            try:
+                nsobj = b.coll(h["ns"])
+            finally:
+                b._in_module -= 1
+            setattr(mod, h.get("attr", "ns"), nsobj)
+            root = Collection(*([h["root_name"]] if h.get("root_name") else []))
+            root.__doc__ = "COLL"
+            for op in h["ops"]:
+                if op[0] == "mount":
+                    _, bind, ad, cfg, dflt, via = op
+                    kw = {"name": bind}
+                    if dflt:
+                        kw["default"] = True
+                    if via == "add":
+                        root.add_collection(mod, **kw)          # -> Collection.from_module(mod)
+                    else:
+                        fkw = {} if cfg is None else {"config": gt.unjson(cfg)}
+                        root.add_collection(Collection.from_module(mod, auto_dash_names=ad, **fkw), **kw)
+                elif op[0] == "ns":
+                    nsobj.configure(gt.unjson(op[1]))
+                elif op[0] == "conf":
+                    root.collections[op[1]].configure(gt.unjson(op[2]))
+                elif op[0] == "root":
+                    root.configure(gt.unjson(op[1]))
+                elif op[0] == "read":
+                    for nm in case["names"]:
+                        try:
+                            root.configuration(nm)
+                        except Exception:  # noqa
+                            pass
+            self._modns = ns.dump(nsobj)
+        except Exception as e:  # noqa
+            return None, {"err": type(e).__name__}
+        return root, {"ok": ns.dump(root)}
 
     def _body_views(self, case, coll, builder, lookups=()):
         """execute every name (as a string, a (name, kwargs) pair or a parsed context) with an otherwise
@@ -263,7 +429,7 @@ class C17(Prop):
         st = ct.result(obs["state"], ns.state)
         o = ct.lst([ct.result(x, lambda v: ct.pair(ct.n(v[0]), ct.tree(gt.unjson(v[1])))) for x in obs["obs"]])
         body = ct.lst([ct.result(x, lambda v: ct.pair(ct.n(v[0]), ct.tree(gt.unjson(v[1])))) for x in obs.get("body", [])])
-        return "(mk %s %s %s %s %s)" % (ns.sub(case["script"]), ct.strs(case["names"]), st, o, body)
+        return "(mk %s %s %s %s %s)" % (ns.sub(script_of(case)), ct.strs(case["names"]), st, o, body)
 
     def nontrivial(self, case, obs):
         if "ok" not in obs["state"]:
@@ -287,7 +453,7 @@ class C17(Prop):
             else:
                 res, dsub, depth = walk_info(d, nm)
                 kinds.add("dsub" if dsub else "depth%d" % min(depth, 3))
-        return "+".join(sorted(kinds)) or "no-names"
+        return ("hist:" if "hist" in case else "") + ("+".join(sorted(kinds)) or "no-names")
 
     _shrink_t0 = None
 
@@ -300,10 +466,56 @@ class C17(Prop):
         if len(names) > 1:
             for i in range(len(names)):
                 yield dict(case, names=[names[i]])
+        if "hist" in case:
+            yield from self._shrink_hist(case)
+            return
         for sp in ns.shrink_spec(case["script"]):
             yield dict(case, script=sp)
 
+    def _shrink_hist(self, case):
+        h = case["hist"]
+        ops = h["ops"]
+
+        def with_ops(o):
+            h2 = dict(h, ops=o)
+            return [dict(case, hist=h2)] if hist_ok(h2) else []
+        for i in range(len(ops)):
+            yield from with_ops(ops[:i] + ops[i + 1:])
+        for i, op in enumerate(ops):
+            if op[0] == "mount":
+                if op[3] is not None:
+                    yield from with_ops(ops[:i] + [[op[0], op[1], op[2], None, op[4], "fm"]] + ops[i + 1:])
+                if op[5] != "add":
+                    yield from with_ops(ops[:i] + [[op[0], op[1], None, None, op[4], "add"]] + ops[i + 1:])
+            pos = {"ns": 1, "conf": 2, "root": 1}.get(op[0])
+            if pos is not None:
+                for sm in ns.shrink_spec({"config": op[pos], "items": []}):
+                    o2 = list(op)
+                    o2[pos] = sm["config"]
+                    if o2[pos]:
+                        yield from with_ops(ops[:i] + [o2] + ops[i + 1:])
+        for sm in ns.shrink_spec(h["ns"]):
+            if any("task" in it for it in sm.get("items", [])):
+                h2 = dict(h, ns=sm)
+                if hist_ok(h2):
+                    yield dict(case, hist=h2)
+        if h.get("attr") != "ns" or h.get("root_name"):
+            yield dict(case, hist=dict(h, attr="ns", root_name=None))
+
     def mutate(self, case, rng):
+        if "hist" in case:
+            h = case["hist"]
+            mounted = [op[1] for op in h["ops"] if op[0] == "mount"]
+            # a later configure() on each mount / on the namespace, read under every name
+            _, st = ns.build_and_dump(flatten_hist(h)[0])
+            names = ns.resolvable_names(st["ok"])[:14] if "ok" in st else case["names"]
+            for b in mounted:
+                yield dict(case, names=names, hist=dict(h, ops=h["ops"] + [["conf", b, {"k": {"x": "late-" + b}}]]))
+            yield dict(case, names=names, hist=dict(h, ops=h["ops"] + [["ns", {"k": {"y": "late-ns"}}]]))
+            yield from itertools.islice(self._shrink_hist(case), 30)
+            for nm in names:
+                yield dict(case, names=[nm])
+            return
         for sp in itertools.islice(ns.shrink_spec(case["script"]), 40):
             yield dict(case, script=sp)
         _, st = ns.build_and_dump(case["script"])
